@@ -9,6 +9,6 @@ CONSTANTS
   StatsMode = "loadstore"
   ShutdownMode = "onmessage"
 VIEW view
-INVARIANTS TypeOK OnlyAuthenticated NothingInvented PathExact ChanOrdered Accounted EpochBalance PrintSane
+INVARIANTS TypeOK OnlyAuthenticated NothingInvented PathExact ChanOrdered Accounted PrintSane
 PROPERTIES DropOnlyWhenFull
 CHECK_DEADLOCK FALSE
